@@ -21,9 +21,12 @@ PENDING = {
 "C06":"Claimed in DESIGN.md; check not built yet in this commit (seeded interleaving of logical clients over a handle tree).",
 "C07":"Claimed in DESIGN.md; check not built yet in this commit (seeded goroutine scheduler + race detector).",
 "C14":"Claimed in DESIGN.md; check not built yet in this commit (seeded goroutine scheduler over the prepared-statement cache).",
-"C18":"Claimed in DESIGN.md; check not built yet in this commit (context tag invariant + cancellation at every call index).",
 }
 CHECKS = {
+"C18": dict(cat="exploration", ref="DESIGN.md section 7, C18",
+  text="Seeded write, read (preload, joins, batches, rows, count, pluck) and association-mode operations started from WithContext/Session{Context} with a uniquely tagged context, at transaction nesting 0..3, PrepareStmt on/off, ConnPool shim on/off, cold/warm: the tag is checked on every ConnPool call and every context-carrying driver call while the run proceeds; the operation is re-run with the context cancelled beforehand (no statement may reach the driver, the context error is returned) and with the context cancelled just before pool call k for every k (no later statement may reach the driver, an error is returned, nothing leaks).",
+  note="Trusted: the tag is a context value (child contexts are fine); Commit/Rollback/Close carry no context; cancellation is injected between pool calls only; database/sql's own context handling.",
+  tech="deterministic simulation: context-tag invariant at the pool and driver seams + cancellation injected at every pool call index"),
 "C13": dict(cat="fault_enumeration", ref="DESIGN.md section 7, C13",
   text="Seeded create/save/update/delete/query operations over record graphs with recording hooks on every model run on the real stack, fault-free (exactly-once and order per in-memory record, statement between before- and after-hooks, all hooks on the operation's own transaction, hook-set values stored, marker rows written through the hook's tx, silence under SkipHooks/UpdateColumn, AfterFind once per delivered row) and once per hook invocation with that invocation failing (error returned, nothing of a later phase runs, database unchanged, no leak). Sampled over operations, exhaustive over hook invocations per operation in the thorough tier.",
   note="Trusted: record identity = address the hook receives; AfterFind accounting uses rows delivered by the driver; records sharing a key with another record of the same value are exempt from the must-be-visited rule (gorm saves one of them, which one is unspecified).",
